@@ -21,7 +21,7 @@ m = {
  "hooks": {
    "guard": "cargo feature `verif-hooks` on jj-lib (forwarded by jj-cli); #[cfg(feature = \"verif-hooks\")]",
    "enable": "the harness crate /verif/harness depends on /repo/lib and /repo/cli by path with features = [\"verif-hooks\"]; no RUSTFLAGS",
-   "baseline_off_cmd": "cd /repo && cargo nextest run --workspace --no-fail-fast --test-threads 8 --offline || cargo test --workspace --no-fail-fast --offline",
+   "baseline_off_cmd": "cd /repo && cargo nextest run --workspace --no-fail-fast --test-threads 8 --offline",
    "source_commits": [h.split()[0] for h in hooks],
    "add_only": True,
  },
